@@ -245,6 +245,11 @@ func (b *bitstream) Next() error {
 		}
 	}
 
+	if code == bitcodeNegInt && length == 0x0F {
+		// null.int is 0x2F; the negative-int type code has no null form.
+		return &InvalidTagByteError{byte(c), b.pos - 1}
+	}
+
 	if length == 0x0F && !lengthRead {
 		// This value is actually a null.
 		b.code = code
